@@ -330,8 +330,18 @@ def _eval_const(expr: str, env: dict):
             raise ValueError("unsupported operand type")
         return ops[opcls](a, b)
 
+    def _has_non_finite(value) -> bool:
+        if isinstance(value, float):
+            return value != value or value in (float("inf"), float("-inf"))
+        if isinstance(value, (list, tuple)):
+            return any(_has_non_finite(item) for item in value)
+        return False
+
     tree = ast.parse(expr, mode="eval")
-    return ev(tree.body)
+    result = ev(tree.body)
+    if _has_non_finite(result):
+        raise ValueError("non-finite constant")
+    return result
 
 
 def _to_c_expr(
@@ -419,6 +429,10 @@ def _to_c_expr(
             if isinstance(n.value, bool):
                 return "true" if n.value else "false"
             if isinstance(n.value, (int, float)):
+                if isinstance(n.value, float) and (
+                    n.value != n.value or n.value in (float("inf"), float("-inf"))
+                ):
+                    raise ValueError("non-finite numeric literal")
                 return str(int(n.value)) if isinstance(n.value, int) else str(n.value)
             if isinstance(n.value, str):
                 return f'"{_escape_string_literal(n.value)}"'
